@@ -60,6 +60,8 @@ def promote_bits(C, x):
         return spec.bits(x)
     if isinstance(x, PStr):
         return BA(x.view.n, x.view.bit)
+    if isinstance(x, str) and (x == '' or (x.startswith('0b') and set(x[2:]) <= {'0', '1'})):
+        return BA.concrete([ch == '1' for ch in x[2:]])
     if isinstance(x, SymBytes):
         return BA(x.nbytes * 8, x.bit)
     if isinstance(x, BA):
